@@ -180,20 +180,57 @@ func lr(name string, v Lit) *Rule {
 	return &Rule{Name: name, Form: "lit", Val: v}
 }
 
-var noteWords = []string{"note", "the", "id", "of", "a", "user", "-", "--", "x1", "(opt)", "é", "a,b", "k: v", "[1]", "{x}", "@t", "|", "/", "//", "\"q\"", "'", "!", "*", "{", "}", "100%", "a.b", "<b>"}
+// textWords: the pool every free text of an annotation is drawn from — node notes (inline and multi-line) and
+// enum item comments. It holds every character that means something to one of the scanners somewhere: `#` `##`
+// `###` (user comments), `//` `/*` `*/` (annotation brackets), `-` (note separator), `@` `|` (shortcuts), quotes,
+// backslash, braces / brackets / comma / colon (rule objects and lists), non-ASCII. Inside a text they are
+// ordinary characters, with the exceptions listed at V11a / V8b in c16.go.
+var textWords = []string{"note", "the", "id", "of", "a", "user", "-", "--", "x1", "(opt)", "é", "a,b", "k: v", "[1]", "{x}", "@t", "|", "/", "//",
+	"\"q\"", "'", "!", "*", "{", "}", "100%", "a.b", "<b>",
+	"#", "##", "###", "#12", "a#b", "c#", "ü#", "# w", "/*", "*/", "/* z */", "// y", "- x", "@", "@t|@u", "@t | @u", "[", "]", ",", ":", "\"", "\\", "\\n",
+	"日本", "😀", "{enum:", "[1,", "1", "true", "null", "{}", "[]", "\"a\": 1"}
+
+// text: 1..4 pool words. sepNL > 0: each gap between two words is a line break (+ indentation) with probability
+// 1/sepNL, a blank otherwise (multi-line notes only; the printer turns "\n" into its own line end).
+func (g *gen) text(sepNL int) string {
+	n := 1 + g.r.Intn(4)
+	var sb strings.Builder
+	for i := 0; i < n; i++ {
+		if i > 0 {
+			if sepNL > 0 && g.r.Intn(sepNL) == 0 {
+				sb.WriteString("\n" + []string{"", " ", "  ", "\t"}[g.r.Intn(4)])
+			} else {
+				sb.WriteString([]string{" ", " ", "  ", "\t"}[g.r.Intn(4)])
+			}
+		}
+		sb.WriteString(textWords[g.r.Intn(len(textWords))])
+	}
+	return sb.String()
+}
 
 func (g *gen) note(multi bool) string {
-	n := 1 + g.r.Intn(4)
-	var w []string
-	for i := 0; i < n; i++ {
-		w = append(w, noteWords[g.r.Intn(len(noteWords))])
+	if multi {
+		return g.text(3)
 	}
-	sep := " "
-	s := strings.Join(w, sep)
-	if multi && g.r.Intn(2) == 0 && n > 1 {
-		s = w[0] + "\n  " + strings.Join(w[1:], " ")
+	return g.text(0)
+}
+
+// itemComment: text of a `// …` comment after an enum item. It may not start with `{` (the scanner would read a
+// rule object) and carries no trailing blanks (V8a).
+func (g *gen) itemComment() string {
+	s := g.text(0)
+	if strings.HasPrefix(s, "{") {
+		s = "c " + s
 	}
 	return s
+}
+
+// cutAtHash: V11a — in an INLINE annotation `#` starts a user comment, the note is what precedes it (trimmed).
+func cutAtHash(s string) string {
+	if i := strings.IndexByte(s, '#'); i >= 0 {
+		s = s[:i]
+	}
+	return strings.Trim(s, " \t\r\n")
 }
 
 // common rules that fit almost every mode
@@ -241,7 +278,11 @@ func (g *gen) enumItems(must Lit, comments bool) []Lit {
 	if comments {
 		for i := range items {
 			if g.r.Intn(2) == 0 {
-				items[i].Comment = []string{"one", "the second", "x - y", "é", "c3"}[g.r.Intn(5)]
+				items[i].Comment = g.itemComment()
+				g.stat("enum_item_comment")
+				if strings.Contains(items[i].Comment, "#") {
+					g.stat("enum_item_comment_hash")
+				}
 			}
 		}
 	}
@@ -677,13 +718,30 @@ func (p *printer) ruleValue(x *Rule, multi bool) string {
 		sb.WriteString("[" + p.brk(multi))
 		for i, it := range x.Items {
 			sb.WriteString(it.Raw + p.sp())
-			if i < len(x.Items)-1 {
-				sb.WriteString("," + p.sp())
-			}
-			if it.Comment != "" {
-				sb.WriteString("//" + p.sp() + it.Comment + p.nl + p.sp())
-			} else {
+			last := i == len(x.Items)-1
+			if it.Comment == "" {
+				if !last {
+					sb.WriteString("," + p.sp())
+				}
 				sb.WriteString(p.brk(multi))
+				continue
+			}
+			// the comment follows its item: after the comma, before the comma (which then opens the next line), or
+			// on a line of its own; it ends with the line
+			cm := "//" + p.sp() + it.Comment + p.nl + p.sp()
+			switch {
+			case !last && p.r.Intn(4) == 0:
+				sb.WriteString(cm + "," + p.brk(multi))
+			case p.r.Intn(5) == 0:
+				if !last {
+					sb.WriteString(",")
+				}
+				sb.WriteString(p.sp() + p.nl + p.sp() + cm)
+			default:
+				if !last {
+					sb.WriteString("," + p.sp())
+				}
+				sb.WriteString(cm)
 			}
 		}
 		sb.WriteString("]")
@@ -718,10 +776,17 @@ func (p *printer) ruleSet(rs []*Rule, multi bool, inSet bool) string {
 	return "{" + strings.Join(parts, ",") + p.brk(multi) + "}"
 }
 
+// needsMulti: an enum item comment (a nested `// …`) anywhere in the rules, also inside a rule-set of an `or`
+// rule, is only possible in a multi-line annotation.
 func needsMulti(rs []*Rule) bool {
 	for _, x := range rs {
 		for _, it := range x.Items {
 			if it.Comment != "" {
+				return true
+			}
+		}
+		for _, a := range x.Alts {
+			if needsMulti(a.Rules) {
 				return true
 			}
 		}
@@ -735,23 +800,34 @@ func (p *printer) annotation(n *Node, g *gen) string {
 		return ""
 	}
 	multi := needsMulti(n.Rules) || p.r.Intn(3) == 0
+	src := "" // the note as printed; n.Note becomes the note the AST must carry
 	if n.Note != "" {
-		n.Note = g.note(multi)
-		if len(n.Rules) == 0 && strings.HasPrefix(n.Note, "{") {
-			n.Note = "n" + n.Note
+		src = g.note(multi)
+		if len(n.Rules) == 0 && strings.HasPrefix(src, "{") {
+			src = "n" + src // without a rule object the text may not start with `{`
 		}
 		if multi {
-			n.Note = strings.ReplaceAll(strings.ReplaceAll(n.Note, "*/", "* /"), "\n", p.nl)
+			// `*/` cannot be written inside a /* */ text; everything else, `#` included, is ordinary text (V11)
+			src = strings.ReplaceAll(strings.ReplaceAll(src, "*/", "* /"), "\n", p.nl)
+			n.Note = src
+			if strings.Contains(src, "#") {
+				g.stat("note_multiline_with_hash")
+			}
+		} else {
+			n.Note = cutAtHash(src) // V11a
+			if n.Note != src {
+				g.stat("note_inline_cut_by_user_comment")
+			}
 		}
 	}
 	var body string
 	if len(n.Rules) > 0 {
 		body = p.ruleSet(n.Rules, multi, false)
-		if n.Note != "" {
-			body += p.sp() + "-" + p.sp() + n.Note
+		if src != "" {
+			body += p.sp() + "-" + p.sp() + src
 		}
 	} else {
-		body = n.Note
+		body = src
 	}
 	if multi {
 		g.stat("annotation_multiline")
